@@ -5003,3 +5003,737 @@ func ruleContextNamespaceThreaded(c *core.Ctx) {
 		})
 	}
 }
+
+// LC1 (C08): an emitted C++ lambda that prints model expressions captures. Computed fields become member functions
+// of the generated struct; a sub-expression printed inside a lambda (the case expression of a `!switch`) may name
+// another field or computed field of the record, i.e. `this->x`. A lambda introduced with an empty capture list `[]`
+// cannot do that ("'this' was not captured"): the generated header does not compile. The body of every lambda the
+// C++ generators print — from the emission that opens it to the emission that brings the brace depth of the emitted
+// text back — therefore contains no visit of a model expression (a call with a dsl visitor as receiver or argument)
+// unless the capture list is not empty.
+func ruleEmittedLambdasCapture(c *core.Ctx) {
+	const rule = "LC1"
+	c.Rule(rule, "cpp generators: inside the emitted body of a C++ lambda with an empty capture list no model expression is printed (no call with a dsl visitor as receiver or argument between the opening emission and the one that closes its braces)", 5)
+	lambdaRe := regexp.MustCompile(`\[\s*([^\]\[]*?)\s*\]\s*\(`)
+	type event struct {
+		tmpl  string // emission
+		visit bool
+		pos   token.Pos
+		what  string
+	}
+	for _, d := range c.AllDecls() {
+		p := c.DeclPkg(d)
+		if p == nil || d.Body == nil || c.IsTestFile(d.Pos()) || !strings.HasPrefix(p.PkgPath, core.Mod+"/internal/cpp/") {
+			continue
+		}
+		info := p.TypesInfo
+		isVisitor := func(t types.Type) bool {
+			if t == nil {
+				return false
+			}
+			if pt, ok := t.(*types.Pointer); ok {
+				t = pt.Elem()
+			}
+			nt := core.NamedOf(t)
+			return nt != nil && nt.Obj().Pkg() != nil && strings.HasSuffix(nt.Obj().Pkg().Path(), "pkg/dsl") && strings.HasPrefix(nt.Obj().Name(), "Visitor")
+		}
+		tmplOf := func(call *ast.CallExpr) (string, bool) { return emissionTemplate(info, call) }
+		var evs []event
+		ast.Inspect(d.Body, func(nn ast.Node) bool {
+			call, ok := nn.(*ast.CallExpr)
+			if !ok {
+				return true
+			}
+			if t, ok := tmplOf(call); ok {
+				evs = append(evs, event{tmpl: t, pos: call.Pos()})
+				return true
+			}
+			v := false
+			if sel, ok := call.Fun.(*ast.SelectorExpr); ok && isVisitor(info.TypeOf(sel.X)) {
+				v = true
+			}
+			for _, a := range call.Args {
+				if _, isLit := ast.Unparen(a).(*ast.FuncLit); !isLit && isVisitor(info.TypeOf(a)) {
+					v = true
+				}
+			}
+			if v {
+				evs = append(evs, event{visit: true, pos: call.Pos(), what: types.ExprString(call.Fun)})
+			}
+			return true
+		})
+		// ast.Inspect visits in source order, which is emission order for straight-line emitters; branches that
+		// return are balanced (a lambda is opened and closed in the same branch)
+		n := 0
+		for i, e := range evs {
+			if e.visit || e.tmpl == "" {
+				continue
+			}
+			for _, m := range lambdaRe.FindAllStringSubmatchIndex(e.tmpl, -1) {
+				capture := e.tmpl[m[2]:m[3]]
+				rest := e.tmpl[m[1]:]
+				if !strings.Contains(rest, "{") {
+					continue // not a lambda introduction (an attribute, an index expression)
+				}
+				n++
+				key := fmt.Sprintf("%s/lambda#%d", c.FuncName(d), n)
+				depth := strings.Count(rest, "{") - strings.Count(rest, "}")
+				var inside *event
+				for j := i + 1; j < len(evs) && depth > 0 && inside == nil; j++ {
+					if evs[j].visit {
+						inside = &evs[j]
+						continue
+					}
+					depth += strings.Count(evs[j].tmpl, "{") - strings.Count(evs[j].tmpl, "}")
+				}
+				switch {
+				case capture != "":
+					c.OK(rule, key, e.pos, "capture list ["+capture+"]")
+				case inside == nil:
+					c.OK(rule, key, e.pos, "empty capture list, and no model expression is printed inside the body")
+				default:
+					c.Bad(rule, key, e.pos, fmt.Sprintf("the lambda opened by %q has an empty capture list, but %s prints a model expression inside its body (%s): an expression that names a field of the record needs `this` — the generated header does not compile", strings.TrimSpace(e.tmpl), inside.what, c.PosStr(inside.pos)))
+				}
+			}
+		}
+	}
+}
+
+// emissionTemplate: is the call one of the text emitters of the generators (fmt.Fprint*, IndentedWriter.WriteString*)?
+// Returns the constant template ("" when the text is not constant).
+func emissionTemplate(info *types.Info, call *ast.CallExpr) (string, bool) {
+	f, _ := typeutil.Callee(info, call).(*types.Func)
+	if f == nil {
+		return "", false
+	}
+	idx := -1
+	switch {
+	case f.Pkg() != nil && f.Pkg().Path() == "fmt" && (f.Name() == "Fprintf" || f.Name() == "Fprint" || f.Name() == "Fprintln"):
+		idx = 1
+	case (f.Name() == "WriteString" || f.Name() == "WriteStringln") && strings.Contains(f.FullName(), "formatting.IndentedWriter"):
+		idx = 0
+	}
+	if idx < 0 || idx >= len(call.Args) {
+		return "", false
+	}
+	if tv, ok := info.Types[call.Args[idx]]; ok && tv.Value != nil && tv.Value.Kind() == constant.String {
+		return constant.StringVal(tv.Value), true
+	}
+	return "", true
+}
+
+// SW1 (C05): no emitted `case` falls through. The C++ generators print `switch` statements over the protocol version,
+// the union index, the format: each emitted case label is followed, on every path the generator can take to the next
+// label, by an emitted `break;`, `return` or `throw` at the nesting depth of the case. A path that prints statements
+// for a case and then the next label (an `else` branch without the `break;`, a callback that may be absent) makes the
+// generated reader run the next case too — for `case Version::v1:` in front of `default:` the old-version branch is
+// followed by the current-version read of the same step.
+func ruleEmittedCasesDoNotFallThrough(c *core.Ctx) {
+	const rule = "SW1"
+	c.Rule(rule, "cpp/binary, cpp/ndjson, cpp/protocols: between an emitted case label and the next emitted label, every path of the generator that emits statements for the case emits `break;` / `return` / `throw` at the depth of the case", 12)
+	labelRe := regexp.MustCompile(`^\s*(case\b.*|default\s*):\s*(\{)?\s*(.*)$`)
+	leaveRe := regexp.MustCompile(`(^|[;{}\s])(break\s*;|return\b|throw\b|continue\s*;)`)
+	type state struct {
+		open  bool // a case is open: a label was emitted and no leave statement yet
+		dirty bool // statements were emitted for it
+		depth int  // emitted brace depth
+		dl    int  // depth right after the label
+		label token.Pos
+		text  string
+	}
+	for _, d := range c.AllDecls() {
+		p := c.DeclPkg(d)
+		if p == nil || d.Body == nil || c.IsTestFile(d.Pos()) || !(strings.HasSuffix(p.PkgPath, "/internal/cpp/binary") || strings.HasSuffix(p.PkgPath, "/internal/cpp/ndjson") || strings.HasSuffix(p.PkgPath, "/internal/cpp/protocols")) {
+			// the serialization back ends and the protocol classes; HDF5 (a deliberate `case -1:` fall-through), mocks and the test translator are not part of any claim
+			continue
+		}
+		info := p.TypesInfo
+		isWriter := func(e ast.Expr) bool {
+			t := info.TypeOf(e)
+			if t == nil {
+				return false
+			}
+			if pt, ok := t.(*types.Pointer); ok {
+				t = pt.Elem()
+			}
+			nt := core.NamedOf(t)
+			return nt != nil && nt.Obj().Name() == "IndentedWriter"
+		}
+		n := 0
+		reported := map[token.Pos]bool{}
+		labels := map[token.Pos]string{}
+		join := func(a, b state) state {
+			if !a.open {
+				a, b = b, a
+			}
+			// a open (or both closed): the open one wins; dirty if either open one is dirty
+			if a.open && b.open {
+				a.dirty = a.dirty || b.dirty
+			}
+			return a
+		}
+		var emit func(st state, tmpl string, pos token.Pos) state
+		emit = func(st state, tmpl string, pos token.Pos) state {
+			for _, line := range strings.Split(tmpl, "\n") {
+				if strings.TrimSpace(line) == "" {
+					continue
+				}
+				if m := labelRe.FindStringSubmatch(line); m != nil && !strings.Contains(m[1], "?") {
+					if st.open && st.dirty && !reported[st.label] {
+						reported[st.label] = true
+					}
+					if _, ok := labels[pos]; !ok {
+						labels[pos] = strings.TrimSpace(line)
+					}
+					st.depth += strings.Count(line, "{") - strings.Count(line, "}")
+					st.open, st.dirty, st.dl, st.label, st.text = true, false, st.depth, pos, strings.TrimSpace(line)
+					if rest := m[3]; strings.TrimSpace(rest) != "" {
+						st.dirty = true
+						if leaveRe.MatchString(rest) && strings.Count(rest, "{") == strings.Count(rest, "}") {
+							st.open = false
+						}
+					}
+					continue
+				}
+				before := st.depth
+				st.depth += strings.Count(line, "{") - strings.Count(line, "}")
+				if !st.open {
+					continue
+				}
+				if st.depth < st.dl-1 || (st.depth < st.dl && strings.TrimSpace(line) != "}") {
+					st.open = false // the switch itself was closed
+					continue
+				}
+				if strings.TrimSpace(line) != "}" {
+					st.dirty = true
+				}
+				if leaveRe.MatchString(line) && before <= st.dl && st.depth <= st.dl {
+					st.open = false
+				}
+			}
+			return st
+		}
+		var walkStmts func(list []ast.Stmt, st state) state
+		var walkExpr func(e ast.Node, st state) state
+		walkExpr = func(e ast.Node, st state) state {
+			if e == nil {
+				return st
+			}
+			ast.Inspect(e, func(nn ast.Node) bool {
+				switch x := nn.(type) {
+				case *ast.FuncLit:
+					return false // a literal that is only stored; literals passed to a call run below
+				case *ast.CallExpr:
+					if t, ok := emissionTemplate(info, x); ok {
+						if t == "" {
+							if st.open {
+								st.dirty = true
+							}
+						} else {
+							st = emit(st, t, x.Pos())
+						}
+						return false
+					}
+					ran := false
+					for _, a := range x.Args {
+						if fl, ok := ast.Unparen(a).(*ast.FuncLit); ok {
+							st = walkStmts(fl.Body.List, st)
+							ran = true
+						} else {
+							st = walkExpr(a, st)
+						}
+					}
+					if !ran {
+						// an opaque call that receives the writer prints something
+						for _, a := range x.Args {
+							if isWriter(a) && st.open {
+								st.dirty = true
+							}
+						}
+					}
+					return false
+				}
+				return true
+			})
+			return st
+		}
+		walkStmts = func(list []ast.Stmt, st state) state {
+			var deferred []*ast.FuncLit
+			for _, s := range list {
+				switch x := s.(type) {
+				case *ast.DeferStmt:
+					if fl, ok := x.Call.Fun.(*ast.FuncLit); ok {
+						deferred = append(deferred, fl)
+					}
+				case *ast.ReturnStmt:
+					for _, r := range x.Results {
+						st = walkExpr(r, st)
+					}
+					for i := len(deferred) - 1; i >= 0; i-- {
+						st = walkStmts(deferred[i].Body.List, st)
+					}
+					return st
+				case *ast.IfStmt:
+					if x.Init != nil {
+						st = walkStmts([]ast.Stmt{x.Init}, st)
+					}
+					st = walkExpr(x.Cond, st)
+					a := walkStmts(x.Body.List, st)
+					b := st
+					if x.Else != nil {
+						b = walkStmts([]ast.Stmt{x.Else}, st)
+					}
+					if goReturns(x.Body.List) {
+						st = b
+					} else if eb, ok := x.Else.(*ast.BlockStmt); ok && goReturns(eb.List) {
+						st = a
+					} else {
+						st = join(a, b)
+					}
+				case *ast.BlockStmt:
+					st = walkStmts(x.List, st)
+				case *ast.ForStmt:
+					once := walkStmts(x.Body.List, st)
+					twice := walkStmts(x.Body.List, join(st, once))
+					st = join(st, join(once, twice))
+				case *ast.RangeStmt:
+					once := walkStmts(x.Body.List, st)
+					twice := walkStmts(x.Body.List, join(st, once))
+					st = join(st, join(once, twice))
+				case *ast.SwitchStmt:
+					out := state{}
+					first := true
+					hasDefault := false
+					for _, cl := range x.Body.List {
+						cc := cl.(*ast.CaseClause)
+						if cc.List == nil {
+							hasDefault = true
+						}
+						r := walkStmts(cc.Body, st)
+						if goReturns(cc.Body) {
+							continue
+						}
+						if first {
+							out, first = r, false
+						} else {
+							out = join(out, r)
+						}
+					}
+					if !hasDefault || first {
+						if first {
+							out = st
+						} else {
+							out = join(out, st)
+						}
+					}
+					st = out
+				case *ast.TypeSwitchStmt:
+					out := st
+					for _, cl := range x.Body.List {
+						cc := cl.(*ast.CaseClause)
+						r := walkStmts(cc.Body, st)
+						if !goReturns(cc.Body) {
+							out = join(out, r)
+						}
+					}
+					st = out
+				default:
+					st = walkExpr(s, st)
+				}
+			}
+			for i := len(deferred) - 1; i >= 0; i-- {
+				st = walkStmts(deferred[i].Body.List, st)
+			}
+			return st
+		}
+		walkStmts(d.Body.List, state{})
+		var ps []token.Pos
+		for pos := range labels {
+			ps = append(ps, pos)
+		}
+		sort.Slice(ps, func(i, j int) bool { return ps[i] < ps[j] })
+		for _, pos := range ps {
+			n++
+			key := fmt.Sprintf("%s/label#%d", c.FuncName(d), n)
+			c.Check(!reported[pos], rule, key, pos, "every path to the next label leaves the case: "+labels[pos],
+				fmt.Sprintf("after the label %q the generator can print statements and then the next case label without `break;`/`return`/`throw` in between: the generated code falls through into the next case", labels[pos]))
+		}
+	}
+}
+
+// goReturns: the statement list ends by leaving the Go function (return, panic).
+func goReturns(list []ast.Stmt) bool {
+	if len(list) == 0 {
+		return false
+	}
+	switch x := list[len(list)-1].(type) {
+	case *ast.ReturnStmt:
+		return true
+	case *ast.ExprStmt:
+		if ce, ok := x.X.(*ast.CallExpr); ok {
+			if id, ok := ce.Fun.(*ast.Ident); ok && id.Name == "panic" {
+				return true
+			}
+		}
+	case *ast.BlockStmt:
+		return goReturns(x.List)
+	case *ast.IfStmt:
+		if eb, ok := x.Else.(*ast.BlockStmt); ok {
+			return goReturns(x.Body.List) && goReturns(eb.List)
+		}
+	}
+	return false
+}
+
+// ST1 (C09): names enter a symbol table qualified, or into a scoped copy. dsl.SymbolTable maps qualified names
+// ("Namespace.Name") to definitions and is shared by every namespace, definition and pass. The only unqualified names
+// that are ever looked up are generic type parameters, and they live in a copy made for the definition that declares
+// them (`scoped := table.Clone(); scoped[T.Name] = T`). An unqualified key written into a table that was received —
+// through a context, a field, a parameter — stays visible after the definition: `T` then resolves in every later
+// definition of the namespace and an undefined name is accepted.
+func ruleSymbolTableWritesScoped(c *core.Ctx) {
+	const rule = "ST1"
+	c.Rule(rule, "every store into a dsl.SymbolTable either goes into a table created in the same function (Clone(), make, literal) or uses a qualified key (GetQualifiedName(), \"%s.%s\" of namespace and name)", 4)
+	for _, d := range c.AllDecls() {
+		p := c.DeclPkg(d)
+		if p == nil || d.Body == nil || c.IsTestFile(d.Pos()) || !strings.HasPrefix(p.PkgPath, core.Mod) {
+			continue
+		}
+		info := p.TypesInfo
+		isSymTab := func(e ast.Expr) bool {
+			t := info.TypeOf(e)
+			if t == nil {
+				return false
+			}
+			if pt, ok := t.(*types.Pointer); ok {
+				t = pt.Elem()
+			}
+			nt := core.NamedOf(t)
+			return nt != nil && nt.Obj().Name() == "SymbolTable" && nt.Obj().Pkg() != nil && strings.HasSuffix(nt.Obj().Pkg().Path(), "pkg/dsl")
+		}
+		// all definitions of a local (x := E, x = E, var x = E)
+		defsOf := func(obj types.Object) []ast.Expr {
+			var out []ast.Expr
+			ast.Inspect(d.Body, func(nn ast.Node) bool {
+				switch x := nn.(type) {
+				case *ast.AssignStmt:
+					if len(x.Lhs) == len(x.Rhs) {
+						for i, l := range x.Lhs {
+							if id, ok := l.(*ast.Ident); ok && info.ObjectOf(id) == obj {
+								out = append(out, x.Rhs[i])
+							}
+						}
+					}
+				case *ast.ValueSpec:
+					for i, nme := range x.Names {
+						if info.Defs[nme] == obj && i < len(x.Values) {
+							out = append(out, x.Values[i])
+						}
+					}
+				}
+				return true
+			})
+			return out
+		}
+		fresh := func(e ast.Expr) bool {
+			switch x := ast.Unparen(e).(type) {
+			case *ast.CompositeLit:
+				return true
+			case *ast.CallExpr:
+				if id, ok := x.Fun.(*ast.Ident); ok && id.Name == "make" {
+					return true
+				}
+				if sel, ok := x.Fun.(*ast.SelectorExpr); ok && sel.Sel.Name == "Clone" {
+					return true
+				}
+			}
+			return false
+		}
+		var qualified func(e ast.Expr, depth int) bool
+		qualified = func(e ast.Expr, depth int) bool {
+			switch x := ast.Unparen(e).(type) {
+			case *ast.CallExpr:
+				if sel, ok := x.Fun.(*ast.SelectorExpr); ok && sel.Sel.Name == "GetQualifiedName" {
+					return true
+				}
+				if f, _ := typeutil.Callee(info, x).(*types.Func); f != nil && f.Pkg() != nil && f.Pkg().Path() == "fmt" && f.Name() == "Sprintf" && len(x.Args) >= 3 {
+					if tv, ok := info.Types[x.Args[0]]; ok && tv.Value != nil && tv.Value.Kind() == constant.String {
+						return strings.Contains(constant.StringVal(tv.Value), "%s.%s")
+					}
+				}
+			case *ast.BinaryExpr:
+				// ns + "." + name
+				if x.Op == token.ADD {
+					found := false
+					ast.Inspect(x, func(m ast.Node) bool {
+						if bl, ok := m.(*ast.BasicLit); ok && bl.Value == `"."` {
+							found = true
+						}
+						return true
+					})
+					return found
+				}
+			case *ast.Ident:
+				if depth > 2 {
+					return false
+				}
+				obj := info.ObjectOf(x)
+				if v, ok := obj.(*types.Var); ok && !v.IsField() {
+					defs := defsOf(obj)
+					if len(defs) == 0 {
+						return false
+					}
+					for _, r := range defs {
+						if !qualified(r, depth+1) {
+							return false
+						}
+					}
+					return true
+				}
+			}
+			return false
+		}
+		n := 0
+		ast.Inspect(d.Body, func(nn ast.Node) bool {
+			as, ok := nn.(*ast.AssignStmt)
+			if !ok {
+				return true
+			}
+			for _, l := range as.Lhs {
+				ix, ok := ast.Unparen(l).(*ast.IndexExpr)
+				if !ok || !isSymTab(ix.X) {
+					continue
+				}
+				n++
+				key := fmt.Sprintf("%s/store#%d", c.FuncName(d), n)
+				m := ast.Unparen(ix.X)
+				if st, ok := m.(*ast.StarExpr); ok {
+					m = ast.Unparen(st.X)
+				}
+				isFresh := false
+				if id, ok := m.(*ast.Ident); ok {
+					if v, ok := info.ObjectOf(id).(*types.Var); ok && !v.IsField() {
+						defs := defsOf(v)
+						isFresh = len(defs) > 0
+						for _, r := range defs {
+							if !fresh(r) {
+								isFresh = false
+							}
+						}
+					}
+				}
+				switch {
+				case isFresh:
+					c.OK(rule, key, as.Pos(), "the table is a copy made in this function")
+				case qualified(ix.Index, 0):
+					c.OK(rule, key, as.Pos(), "qualified key "+types.ExprString(ix.Index))
+				default:
+					c.Bad(rule, key, as.Pos(), fmt.Sprintf("`%s` is stored into the symbol table `%s`, which this function did not create, under a key that is not a qualified name: the entry stays visible to every definition resolved afterwards (a generic parameter of one definition resolves inside another)", types.ExprString(ix.Index), types.ExprString(ix.X)))
+				}
+			}
+			return true
+		})
+	}
+}
+
+// ZF1 (C04/C15): no test of a field that cannot have been set. After `v := T{A: x}` every field of v that the literal
+// does not list holds its zero value until something stores into it; a condition that reads such a field in between
+// (`len(v.B) == 0`, `v.B == nil`, `v.B != ""`) is decided by the literal, not by the data — the branch behind it is
+// taken always or never. In a marshaller that chooses between a short and a full form this makes every value take the
+// short form, and what the full form carries never reaches the schema.
+func ruleNoTestOfUnsetField(c *core.Ctx) {
+	const rule = "ZF1"
+	c.Rule(rule, "no `if` condition reads a field of a local struct between the composite literal that created the struct without that field and the first statement that can store into it", 50)
+	for _, d := range c.AllDecls() {
+		p := c.DeclPkg(d)
+		if p == nil || d.Body == nil || c.IsTestFile(d.Pos()) || !strings.HasPrefix(p.PkgPath, core.Mod) {
+			continue
+		}
+		info := p.TypesInfo
+		n := 0
+		var scanBlock func(list []ast.Stmt)
+		scanBlock = func(list []ast.Stmt) {
+			for i, s := range list {
+				var obj types.Object
+				var lit *ast.CompositeLit
+				switch x := s.(type) {
+				case *ast.AssignStmt:
+					if x.Tok == token.DEFINE && len(x.Lhs) == 1 && len(x.Rhs) == 1 {
+						e := ast.Unparen(x.Rhs[0])
+						if u, ok := e.(*ast.UnaryExpr); ok && u.Op == token.AND {
+							e = ast.Unparen(u.X)
+						}
+						if cl, ok := e.(*ast.CompositeLit); ok {
+							lit, obj = cl, identObj(info, x.Lhs[0])
+						}
+					}
+				case *ast.DeclStmt:
+					if gd, ok := x.Decl.(*ast.GenDecl); ok && len(gd.Specs) == 1 {
+						if vs, ok := gd.Specs[0].(*ast.ValueSpec); ok && len(vs.Names) == 1 && len(vs.Values) == 1 {
+							if cl, ok := ast.Unparen(vs.Values[0]).(*ast.CompositeLit); ok {
+								lit, obj = cl, info.Defs[vs.Names[0]]
+							}
+						}
+					}
+				}
+				if lit == nil || obj == nil {
+					continue
+				}
+				lt := info.TypeOf(lit)
+				if lt == nil {
+					continue
+				}
+				st, ok := lt.Underlying().(*types.Struct)
+				if !ok {
+					continue
+				}
+				set := map[string]bool{}
+				keyed := true
+				for _, e := range lit.Elts {
+					kv, ok := e.(*ast.KeyValueExpr)
+					if !ok {
+						keyed = false
+						break
+					}
+					if id, ok := kv.Key.(*ast.Ident); ok {
+						set[id.Name] = true
+					}
+				}
+				if !keyed {
+					continue
+				}
+				n++
+				key := fmt.Sprintf("%s/%s#%d", c.FuncName(d), obj.Name(), n)
+				bad := false
+				// reads of obj.F in a condition, F unset and a direct field of the struct
+				unsetRead := func(cond ast.Expr) (string, token.Pos) {
+					var name string
+					var at token.Pos
+					ast.Inspect(cond, func(m ast.Node) bool {
+						sel, ok := m.(*ast.SelectorExpr)
+						if !ok || name != "" {
+							return true
+						}
+						if identObj(info, sel.X) != obj || set[sel.Sel.Name] {
+							return true
+						}
+						for k := 0; k < st.NumFields(); k++ {
+							if st.Field(k).Name() == sel.Sel.Name && !st.Field(k).Embedded() {
+								name, at = sel.Sel.Name, sel.Pos()
+							}
+						}
+						return true
+					})
+					return name, at
+				}
+				mentions := func(nn ast.Node) bool {
+					found := false
+					ast.Inspect(nn, func(m ast.Node) bool {
+						if id, ok := m.(*ast.Ident); ok && info.ObjectOf(id) == obj {
+							found = true
+						}
+						return !found
+					})
+					return found
+				}
+				for _, nx := range list[i+1:] {
+					if ifs, ok := nx.(*ast.IfStmt); ok && ifs.Init == nil {
+						if f, at := unsetRead(ifs.Cond); f != "" {
+							bad = true
+							c.Bad(rule, key, at, fmt.Sprintf("the condition reads `%s.%s`, but `%s` was created just above by a literal that does not set %s and nothing has stored into it since: the test is decided by the literal (always the zero value), not by the data", obj.Name(), f, obj.Name(), f))
+							break
+						}
+						if !mentions(ifs.Body) && (ifs.Else == nil || !mentions(ifs.Else)) {
+							continue // only reads of set fields in the condition
+						}
+						break
+					}
+					if mentions(nx) {
+						break
+					}
+				}
+				if !bad {
+					c.OK(rule, key, lit.Pos(), "no field left unset by the literal is tested before the struct is used")
+				}
+			}
+			// nested blocks
+			for _, s := range list {
+				ast.Inspect(s, func(m ast.Node) bool {
+					switch b := m.(type) {
+					case *ast.BlockStmt:
+						scanBlock(b.List)
+						return false
+					case *ast.CaseClause:
+						scanBlock(b.Body)
+						return false
+					case *ast.CommClause:
+						scanBlock(b.Body)
+						return false
+					}
+					return true
+				})
+			}
+		}
+		scanBlock(d.Body.List)
+	}
+}
+
+// DF1 (C06): a default goes to the variable that was found empty. `if x == nil { y = D }` with nothing else in the body is
+// the idiom "x has no value, use the default": x and y are the same variable. When they differ — the old side is tested
+// and the new side is overwritten — a value that was present is replaced by the default (and the absent one stays
+// absent): comparing two enums without a `base:` then reports a base type change between identical definitions.
+func ruleDefaultGoesToTestedVariable(c *core.Ctx) {
+	const rule = "DF1"
+	c.Rule(rule, "`if x == nil { y = D }` (one assignment to a variable of x's type, no else): y is x", 5)
+	for _, d := range c.AllDecls() {
+		p := c.DeclPkg(d)
+		if p == nil || d.Body == nil || c.IsTestFile(d.Pos()) || !strings.HasPrefix(p.PkgPath, core.Mod) {
+			continue
+		}
+		info := p.TypesInfo
+		n := 0
+		ast.Inspect(d.Body, func(nn ast.Node) bool {
+			ifs, ok := nn.(*ast.IfStmt)
+			if !ok || ifs.Else != nil || ifs.Init != nil || len(ifs.Body.List) != 1 {
+				return true
+			}
+			be, ok := ast.Unparen(ifs.Cond).(*ast.BinaryExpr)
+			if !ok || be.Op != token.EQL {
+				return true
+			}
+			var tested ast.Expr
+			switch {
+			case isNilIdent(be.Y):
+				tested = be.X
+			case isNilIdent(be.X):
+				tested = be.Y
+			default:
+				return true
+			}
+			as, ok := ifs.Body.List[0].(*ast.AssignStmt)
+			if !ok || as.Tok != token.ASSIGN || len(as.Lhs) != 1 || len(as.Rhs) != 1 {
+				return true
+			}
+			lt, tt := info.TypeOf(as.Lhs[0]), info.TypeOf(tested)
+			if lt == nil || tt == nil || !types.Identical(lt, tt) {
+				return true
+			}
+			// the right-hand side is a fresh value (a default), not a copy of another variable of the pair
+			switch ast.Unparen(as.Rhs[0]).(type) {
+			case *ast.Ident, *ast.SelectorExpr:
+				return true
+			}
+			n++
+			key := fmt.Sprintf("%s/default#%d", c.FuncName(d), n)
+			same := types.ExprString(ast.Unparen(as.Lhs[0])) == types.ExprString(ast.Unparen(tested))
+			c.Check(same, rule, key, ifs.Pos(), "`"+types.ExprString(tested)+"` is tested and defaulted",
+				fmt.Sprintf("`%s` is found nil but the default is stored into `%s`: a value that was present is overwritten and the absent one stays nil", types.ExprString(tested), types.ExprString(as.Lhs[0])))
+			return true
+		})
+	}
+}
+
+func isNilIdent(e ast.Expr) bool {
+	id, ok := ast.Unparen(e).(*ast.Ident)
+	return ok && id.Name == "nil"
+}
